@@ -95,6 +95,19 @@ def run(run):
                     fam.append('FROM %s AS x WHERE x.getName() == "%s" SELECT x.getVisibility(), x' % (k1, lit))
                 for k2 in kinds:
                     fam.append('FROM %s AS x WHERE x.getName() != "%s" SELECT x.getName()' % (k2, v1))
+                # joins over the same kinds: selective, then unrestricted, other aliases, other order
+                small = [k for k in ("class_declaration", "method_declaration", "variable_declaration", "ClassInstanceExpr") if k in kinds and len(proj.by_kind.get(k, [])) <= 40]
+                if len(small) >= 2:
+                    ka, kb = rng.sample(small, 2)
+                    va = rng.choice(proj.values.get((ka, "getName")) or ["x"])
+                    vb = rng.choice(proj.values.get((kb, "getName")) or ["x"])
+                    fam += ['FROM %s AS a, %s AS b WHERE a.getName() == "%s" SELECT a.getName(), b.getName()' % (ka, kb, va),
+                            'FROM %s AS x, %s AS y SELECT x.getName(), y.getName()' % (ka, kb),
+                            'FROM %s AS a, %s AS b WHERE b.getName() == "%s" && a.getName() != "%s" SELECT b.getName(), a.getName()' % (ka, kb, vb, va),
+                            'FROM %s AS p, %s AS q SELECT p.getName(), q.getName()' % (ka, kb),
+                            'FROM %s AS y, %s AS x SELECT x.getName(), y.getName()' % (kb, ka),
+                            'FROM %s AS a, %s AS b WHERE a.getName() == b.getName() SELECT a.getName()' % (ka, kb),
+                            'FROM %s AS x, %s AS y SELECT x.getName(), y.getName()' % (ka, kb)]
                 rng.shuffle(fam)
                 seq = fam + rng.sample(fam, min(6, len(fam)))
             if s == 0:
